@@ -201,7 +201,7 @@ impl Iterator for TaikoGradualDifficulty {
     }
 
     fn nth(&mut self, n: usize) -> Option<Self::Item> {
-        let mut take = cmp::min(n, self.len().saturating_sub(1));
+        let mut take = cmp::min(n, self.len());
 
         // Hits among the first two objects have no difficulty object
         while take > 0 && self.idx < self.first_combos.n_hits() {
